@@ -66,6 +66,44 @@ func configuredCases(tier string) []*space.Case {
 	ex.Label = "F5/all|excluded"
 	out = append(out, ex)
 	out = append(out, space.AllExcluded()...)
+	// every per-field flag (required, computed, sensitive, validators, plan modifiers) on every path:
+	// the flags belong to the schema and must not change what the converters do
+	for _, c := range space.F1("X") {
+		temporal := c.Tags["class"] == "time" || c.Tags["class"] == "duration"
+		if c.Tags["card"] == "single" || c.Tags["card"] == "embed" || temporal || c.Tags["vt"] == "string" || c.Tags["vt"] == "msgNullable" {
+			out = append(out, space.Variant(c, false, false, "flags"))
+		}
+	}
+	// every shape-class representative below a position, under the option mixes (flags on every path,
+	// renames on every path) and in a multi-file package: rotating positions in the quick tier (each
+	// representative meets each mix once, each position meets each mix three times), the full product in thorough
+	{
+		reps := space.Representatives()
+		byLabel := map[string]*space.Case{}
+		for _, c := range space.F2(reps, false) {
+			byLabel[c.Tags["pos"]+"/"+c.Tags["card"]+"/"+c.Tags["vt"]] = c
+		}
+		np := len(space.Positions)
+		for i, r := range reps {
+			for j, pos := range space.Positions {
+				c := byLabel[pos+"/"+r[1]+"/"+r[0]]
+				if c == nil {
+					continue
+				}
+				if tier == "thorough" || j == i%np {
+					out = append(out, space.Variant(c, false, false, "flags"))
+				}
+				if tier == "thorough" || j == (i+4)%np {
+					out = append(out, space.Variant(c, true, false, "names"))
+				}
+				if tier == "thorough" || j == (i+2)%np {
+					if sc := space.Split(c); sc != nil {
+						out = append(out, sc)
+					}
+				}
+			}
+		}
+	}
 	// multi-file packages: the non-root messages live in an imported file of the same package
 	for _, c := range []*space.Case{space.F4()[0], space.F5()[0], space.F4()[4]} {
 		if sc := space.Split(c); sc != nil {
